@@ -1028,6 +1028,12 @@ pub(crate) fn verify_tau(
             return Err(StatusCode::InvalidCompactTarget.into());
         }
         Ok(true)
+    } else if start_epoch.number() > end_epoch.number() {
+        let errmsg = format!(
+            "the epochs go backwards ([{:#},{:#}])",
+            start_epoch, end_epoch
+        );
+        Err(StatusCode::MalformedProtocolMessage.with_context(errmsg))
     } else {
         let start_block_difficulty = compact_to_difficulty(start_compact_target);
         let end_block_difficulty = compact_to_difficulty(end_compact_target);
@@ -1055,6 +1061,21 @@ pub(crate) fn verify_total_difficulty(
             "failed since total difficulty is decreased from {:#x} to {:#x} \
             during epochs ([{:#},{:#}])",
             start_total_difficulty, end_total_difficulty, start_epoch, end_epoch
+        );
+        return Err(errmsg);
+    }
+
+    // The epochs are peer-supplied header fields: they may go backwards or be ill-formed.
+    let start_epoch_blocks_count_opt = start_epoch
+        .length()
+        .checked_sub(start_epoch.index().saturating_add(1));
+    if start_epoch.number() > end_epoch.number()
+        || (start_epoch.number() == end_epoch.number() && start_epoch.index() > end_epoch.index())
+        || (start_epoch.number() != end_epoch.number() && start_epoch_blocks_count_opt.is_none())
+    {
+        let errmsg = format!(
+            "failed since the epochs ([{:#},{:#}]) go backwards or are ill-formed",
+            start_epoch, end_epoch
         );
         return Err(errmsg);
     }
@@ -1101,7 +1122,7 @@ pub(crate) fn verify_total_difficulty(
             })?;
 
         // Step-2 Check the range of total difficulty.
-        let start_epoch_blocks_count = start_epoch.length() - start_epoch.index() - 1;
+        let start_epoch_blocks_count = start_epoch_blocks_count_opt.unwrap_or_default();
         let end_epoch_blocks_count = end_epoch.index() + 1;
         let unaligned_difficulty_calculated = start_block_difficulty * start_epoch_blocks_count
             + end_block_difficulty * end_epoch_blocks_count;
